@@ -3,7 +3,7 @@ import itertools
 import random
 
 from symx.core import Shape
-from symx import refsem as R
+from symx import refsem as R, shim
 from symx.num import Sym
 
 PROPERTY = "C06"
@@ -20,7 +20,7 @@ META = dict(
                       "operators of 1-3 words (+identity), orders 1,2, steps 1-2; |c| <= 20",
                 thorough="all 63 words on <=3 qubits inside width 4, control none/1/2 qubits; operators 1-3 words, "
                          "orders 1,2,4, steps 1-3, qubit and fermionic input (JW, BK)"),
-    outside=["IEEE rounding", "terms with |coef*t| below the 1e-10 skip threshold (threshold-assume policy)",
+    outside=["IEEE rounding", "terms with |coef*t| below the 1e-10 skip threshold (threshold-assume policy; aux/small-terms checks concrete angles just above it)",
              "the analytic commutator error bound of the product formula for non-commuting terms (cited, not re-proved): "
              "for those the check is equality with the product formula S_k(t/n)^n itself",
              "4th-order formula on two non-commuting terms WITHOUT control: the exact comparison exceeds the 900 s shape budget "
@@ -154,6 +154,71 @@ def h_qubit_op(env, words, nq, order, steps, control, time_mode, use_trotterize,
     S = product_formula([(w, a) for w, a in seq], nq, ctl)
     env.check_vec_eq([x for col in U for x in col], [x for col in S for x in col],
                      f"phase*unitary(trotterize order={order} steps={steps} control={control}) == product formula")
+
+
+def _np_unitary(gates, n):
+    """double-precision unitary of a circuit of one-qubit (possibly controlled) gates; index = bitstring with qubit 0 first"""
+    import numpy as np
+
+    def m1(name, th):
+        c, s_ = np.cos(th / 2) if th is not None else 0, np.sin(th / 2) if th is not None else 0
+        return {"H": np.array([[1, 1], [1, -1]]) / np.sqrt(2), "X": np.array([[0, 1], [1, 0]]), "Y": np.array([[0, -1j], [1j, 0]]),
+                "Z": np.diag([1, -1]), "S": np.diag([1, 1j]), "T": np.diag([1, np.exp(0.25j * np.pi)]),
+                "RX": np.array([[c, -1j * s_], [-1j * s_, c]]), "RY": np.array([[c, -s_], [s_, c]]),
+                "RZ": np.diag([np.exp(-0.5j * th), np.exp(0.5j * th)]) if th is not None else None,
+                "PHASE": np.diag([1, np.exp(1j * th)]) if th is not None else None}[name]
+    U = np.eye(2 ** n, dtype=complex)
+    for g in gates:
+        name, ctl = g.name, list(g.control or [])
+        base = {"CNOT": "X", "CX": "X", "CY": "Y", "CZ": "Z", "CH": "H", "CRX": "RX", "CRY": "RY", "CRZ": "RZ", "CPHASE": "PHASE"}.get(name, name)
+        M = m1(base, float(g.parameter) if g.parameter != "" else None)
+        t = g.target[0]
+        G = np.zeros((2 ** n, 2 ** n), dtype=complex)
+        for col in range(2 ** n):
+            bits = [(col >> (n - 1 - q)) & 1 for q in range(n)]
+            if all(bits[c_] for c_ in ctl):
+                for b_ in (0, 1):
+                    nb = list(bits)
+                    nb[t] = b_
+                    G[int("".join(map(str, nb)), 2), col] += M[b_, bits[t]]
+            else:
+                G[col, col] = 1
+        U = G @ U
+    return U
+
+
+def h_small_terms(env, eps, steps, via):
+    """AUXILIARY concrete shape (no solver role; the subject is the numeric skip threshold): terms whose rotation angle per step is
+    small but ABOVE the documented skip threshold (|coef * time / n_steps| > 1e-10) are still exponentiated. Two commuting terms on
+    different qubits, so the product formula is exact: phase * U == exp(-i a Z0) (x) exp(-i eps X1) entry by entry (1e-13 << eps)"""
+    import cmath
+    import math
+    from tangelo.toolboxes.operators import QubitOperator
+    from tangelo.toolboxes.ansatz_generator.ansatz_utils import trotterize, get_exponentiated_qubit_operator_circuit
+    from tangelo.toolboxes.unitary_generator import TrotterSuzukiUnitary
+    with shim.concrete_mode():
+        a = 0.7
+        op = QubitOperator()
+        op.terms[((0, "Z"),)] = a
+        op.terms[((1, "X"),)] = eps * steps      # eps is the per-step angle of the small term
+        if via == "trotterize":
+            circ, phase = trotterize(op, time=1.0, n_trotter_steps=steps, trotter_order=1, return_phase=True)
+        elif via == "unitary":
+            circ, phase = TrotterSuzukiUnitary(op, time=1.0, trotter_order=1, n_trotter_steps=steps).build_circuit(1), 1.0
+        else:
+            steps_eff = 1
+            op.terms[((1, "X"),)] = eps
+            circ, phase = get_exponentiated_qubit_operator_circuit(op, time=1.0, return_phase=True)
+        Un = complex(phase) * _np_unitary(circ._gates, 2)
+        U = [[Un[r, c] for r in range(4)] for c in range(4)]
+        tot = eps * steps if via != "direct" else eps
+        z = [cmath.exp(-1j * a), cmath.exp(1j * a)]
+        x = [[math.cos(tot), -1j * math.sin(tot)], [-1j * math.sin(tot), math.cos(tot)]]
+        # index = bitstring with qubit 0 first (most significant)
+        ref = [[z[i0] * x[i1][j1] if i0 == j0 else 0j for (i0, i1) in ((0, 0), (0, 1), (1, 0), (1, 1))] for (j0, j1) in ((0, 0), (0, 1), (1, 0), (1, 1))]
+        dev = max(abs(U[c][r] - ref[c][r]) for c in range(4) for r in range(4))
+    env.check_true(dev < 1e-13, f"{via}: a term with per-step angle {eps} (above the 1e-10 skip threshold) is exponentiated [n_steps={steps}]",
+                   detail=f"max entry deviation {dev}")
 
 
 def h_unitary(env, words, nq, order, steps, n_steps, control, method, via_default):
@@ -326,6 +391,9 @@ def shapes(tier, seed):
     out.append(Shape("qubitop/pi-multiples/steps2", h_qubit_op,
                      dict(words=[((0, "Y"),), ((0, "Z"), (1, "X"))], nq=2, order=2, steps=2, control=None, time_mode="one", use_trotterize=True,
                           ident=True, pi_multiples=(4, 2)), modules=MODS))
+    for eps_, st_ in ((5e-9, 1), (2e-10, 1), (3e-9, 4), (1e-6, 2)):
+        for via_ in ("direct", "trotterize", "unitary"):
+            out.append(Shape(f"aux/small-terms/{via_}/eps={eps_}/steps={st_}", h_small_terms, dict(eps=eps_, steps=st_, via=via_), modules=()))
     # Hamiltonian with an idle qubit below its highest index: the state register is still 0 .. highest index
     for (c, m_) in ((None, "time"), (3, "repeat")):
         out.append(Shape(f"unitary/Z0+X2-gap/o1s1/n1/ctl={c}/{m_}", h_unitary,
